@@ -1,26 +1,37 @@
 ---------------------------- MODULE Trace_Newton ----------------------------
 (* Trace validation for the six Newton solvers (C17), hook-free.                         *)
-(* The user closures are the observation points.  Per case the harness performs three    *)
-(* solves on ONE Newton object and logs, per solve,                                      *)
-(*    begin(call, variant, n, maxit, pb = parameters() before, g = configured guess)     *)
+(* The user closures are the observation points.  Per solve the harness logs             *)
+(*    begin(mode, call, variant, n, maxit, pb = parameters() before, g = configured      *)
+(*          guess, tolb, deltab = configured tolerance / step)                           *)
 (*    eval(call, idx, fn, x)          one per closure call, x = bit patterns of the point *)
 (*    end(call, ok, r = carried value, pa = parameters() after, cnt, du, basin, expect)  *)
-(* call 1, call 2: the case's limit m (repeatability); call 3: after iterations(m + 1).  *)
-(* Checked here, one event per step:                                                     *)
-(*  - the sequence begin, eval*, end is the projection of a behaviour of the protocol    *)
-(*    machine of Newton.tla: evaluations only inside a running solve, numbered without   *)
-(*    gaps, never more than maxit * EvalBound(variant, n) (EvalAllowed / EndAllowed),    *)
-(*    success only if maxit >= 1, maxit = 0 => no evaluation and Err(guess);             *)
-(*  - no panic, whatever the function;                                                   *)
-(*  - parameters() bit-identical before / after each solve and reflecting the            *)
-(*    configuration (scalar variants; the vector variants expose no parameters());       *)
-(*  - call 2 is bit-identical to call 1: same evaluation points in the same order, same  *)
+(* A case is a sequence of solves; its mode fixes the ROLE of each solve:                *)
+(*  mode "std"    one object: call 1 "ref", call 2 "rep" (same limit m: repeatability),  *)
+(*                call 3 "ext" (after iterations(m + 1): prefix closure)                 *)
+(*  mode "seq"    call 1 "solo" on object A; then setters tolerance / delta / iterations *)
+(*                / guess in some order and combination; call 2 "ref" on A; call 3 "rep" *)
+(*                on a FRESH object configured with the final parameters: the            *)
+(*                reconfigured object must behave exactly like the fresh one (no stale   *)
+(*                configuration), and parameters() must show the final values            *)
+(*  mode "ladder" one object, a function whose criterion is never met, limits            *)
+(*                1 ("unit"), then 0, 2, 3, 5, 8, 13, 20, 50 ("lad"): the number of      *)
+(*                closure calls under limit m is EXACTLY m times that under limit 1      *)
+(*                (exactly m steps - the per-step cost is taken from the limit-1 run,    *)
+(*                nothing about the implementation is assumed), every run repeats the    *)
+(*                longest earlier run on the common prefix, and the value carried by the *)
+(*                longest earlier run (limit m') is a point evaluated in step m' + 1.    *)
+(* Checked for every solve, one event per step:                                          *)
+(*  - begin, eval*, end is the projection of a behaviour of the machine of Newton.tla:   *)
+(*    evaluations only inside a running solve, numbered without gaps, never more than    *)
+(*    maxit * EvalBound(variant, n); success only if maxit >= 1; maxit = 0 => no         *)
+(*    evaluation and Err(guess); no panic, whatever the function;                        *)
+(*  - parameters() reflects the configuration (scalar variants; the vector variants      *)
+(*    expose no parameters()) and is bit-identical before / after the solve;             *)
+(*  - "rep": bit-identical to "ref" - same evaluation points in the same order, same     *)
 (*    verdict, same value;                                                               *)
-(*  - prefix closure: call 3 repeats the evaluations of call 1 bit for bit; if call 1    *)
-(*    succeeded so does call 3 with the same value; if call 1 failed, the value it       *)
-(*    carries is bit-equal to a point at which call 3 evaluates a closure in its         *)
-(*    (m+1)-th step (the evaluations after the common prefix) - i.e. Err carries the     *)
-(*    LAST iterate, not the guess and not an earlier or a later point;                   *)
+(*  - "ext": repeats "ref" on the common prefix; a success stays the same success; a     *)
+(*    failure of "ref" carries a point evaluated by "ext" after the common prefix, i.e.  *)
+(*    Err carries the LAST iterate;                                                      *)
 (*  - units: ok /\ basin => du <= 1, du = |x - x*| / (8 (tol + delta^2 + eps (|x*| + 1))) *)
 (*    measured by the harness against the analytically known root;                       *)
 (*  - expect = "ok" (guess inside the provable quadratic basin, limit >= 14) => success; *)
@@ -32,8 +43,14 @@ VARIABLES l, st
 vars == <<l, st>>
 N == INSTANCE Newton WITH MutatesGuess <- FALSE
 
-Idle == [phase |-> "idle", cid |-> 0, call |-> 0, v |-> "f64", n |-> 1, maxit |-> 0, cnt |-> 0, seq |-> <<>>, g |-> <<>>, pb |-> <<>>,
-         over |-> FALSE, div |-> FALSE, seq1 |-> <<>>, cnt1 |-> 0, ok1 |-> FALSE, r1 |-> <<>>, pb1 |-> <<>>, m1 |-> 0]
+Idle == [phase |-> "idle", cid |-> 0, call |-> 0, role |-> "ref", v |-> "f64", n |-> 1, maxit |-> 0, cnt |-> 0, seq |-> <<>>, g |-> <<>>, pb |-> <<>>,
+         over |-> FALSE, div |-> FALSE, seq1 |-> <<>>, cnt1 |-> 0, ok1 |-> FALSE, r1 |-> <<>>, pb1 |-> <<>>, m1 |-> 0, c1 |-> 0]
+
+Role(e) == CASE e.mode = "std" -> (CASE e.call = 1 -> "ref" [] e.call = 2 -> "rep" [] e.call = 3 -> "ext" [] OTHER -> "bad")
+             [] e.mode = "seq" -> (CASE e.call = 1 -> "solo" [] e.call = 2 -> "ref" [] e.call = 3 -> "rep" [] OTHER -> "bad")
+             [] e.mode = "ladder" -> (IF e.call = 1 THEN "unit" ELSE IF e.call >= 2 THEN "lad" ELSE "bad")
+             [] OTHER -> "bad"
+StartsRef(r) == r \in {"ref", "unit"}
 
 \* parameters() = (tol, delta, max_iter, guess) must reflect what was configured (scalar variants)
 ParamsReflect(e) == IF N!IsScalar(e.variant)
@@ -41,54 +58,71 @@ ParamsReflect(e) == IF N!IsScalar(e.variant)
                            /\ \A i \in 1..Len(e.g) : e.pb[3 + i] = e.g[i]
                       ELSE TRUE
 SamePb3(a, b) == Len(a) = Len(b) /\ \A i \in 1..Len(a) : (i = 3 \/ a[i] = b[i])
+SameObj(e) == st.cid = e.cid /\ st.call = e.call - 1 /\ e.variant = st.v /\ e.n = st.n
 
 BeginOK(e) ==
     /\ st.phase # "run" /\ e.variant \in N!Variants /\ e.n >= 1 /\ e.maxit >= 0 /\ ParamsReflect(e)
-    /\ CASE e.call = 1 -> TRUE
-         [] e.call = 2 -> st.cid = e.cid /\ st.call = 1 /\ e.maxit = st.m1 /\ e.pb = st.pb1 /\ e.g = st.g /\ e.variant = st.v /\ e.n = st.n
-         [] e.call = 3 -> st.cid = e.cid /\ st.call = 2 /\ e.maxit = st.m1 + 1 /\ SamePb3(e.pb, st.pb1) /\ e.g = st.g /\ e.variant = st.v /\ e.n = st.n
-         [] OTHER -> FALSE
-AfterBegin(e) == [st EXCEPT !.phase = "run", !.cid = e.cid, !.call = e.call, !.v = e.variant, !.n = e.n, !.maxit = e.maxit, !.cnt = 0, !.seq = <<>>,
-                            !.g = e.g, !.pb = e.pb, !.over = FALSE, !.div = FALSE,
-                            !.seq1 = IF e.call = 1 THEN <<>> ELSE st.seq1, !.cnt1 = IF e.call = 1 THEN 0 ELSE st.cnt1,
-                            !.ok1 = IF e.call = 1 THEN FALSE ELSE st.ok1, !.r1 = IF e.call = 1 THEN <<>> ELSE st.r1,
-                            !.pb1 = IF e.call = 1 THEN e.pb ELSE st.pb1, !.m1 = IF e.call = 1 THEN e.maxit ELSE st.m1]
+    /\ LET r == Role(e)
+       IN CASE r = "solo" -> TRUE
+            [] r = "ref" -> (e.call = 1 \/ SameObj(e))
+            [] r = "rep" -> SameObj(e) /\ e.maxit = st.m1 /\ e.pb = st.pb1 /\ e.g = st.g
+            [] r = "ext" -> SameObj(e) /\ e.maxit = st.m1 + 1 /\ SamePb3(e.pb, st.pb1) /\ e.g = st.g
+            [] r = "unit" -> e.maxit = 1
+            [] r = "lad" -> SameObj(e) /\ SamePb3(e.pb, st.pb1) /\ e.g = st.g
+            [] OTHER -> FALSE
+AfterBegin(e) == LET new == StartsRef(Role(e))
+                 IN [st EXCEPT !.phase = "run", !.cid = e.cid, !.call = e.call, !.role = Role(e), !.v = e.variant, !.n = e.n, !.maxit = e.maxit,
+                               !.cnt = 0, !.seq = <<>>, !.g = e.g, !.pb = e.pb, !.over = FALSE, !.div = FALSE,
+                               !.seq1 = IF new THEN <<>> ELSE st.seq1, !.cnt1 = IF new THEN 0 ELSE st.cnt1,
+                               !.ok1 = IF new THEN FALSE ELSE st.ok1, !.r1 = IF new THEN <<>> ELSE st.r1,
+                               !.pb1 = IF new THEN e.pb ELSE st.pb1, !.m1 = IF new THEN e.maxit ELSE st.m1,
+                               !.c1 = IF new THEN 0 ELSE st.c1]
 
-\* the evaluation repeats call 1 (call 2: always; call 3: inside the common prefix)
-Repeats(e) == IF e.call = 1 THEN TRUE
-              ELSE IF e.idx <= st.cnt1 THEN e.x = st.seq1[e.idx] ELSE e.call = 3 /\ ~st.ok1
+\* the evaluation repeats the reference run ("rep": always; "ext", "lad": inside the common prefix)
+Repeats(e) == CASE st.role \in {"ref", "solo", "unit"} -> TRUE
+                [] st.role = "rep" -> e.idx <= st.cnt1 /\ e.x = st.seq1[e.idx]
+                [] st.role = "ext" -> IF e.idx <= st.cnt1 THEN e.x = st.seq1[e.idx] ELSE ~st.ok1
+                [] st.role = "lad" -> IF e.idx <= st.cnt1 THEN e.x = st.seq1[e.idx] ELSE TRUE
+                [] OTHER -> FALSE
 EvalWhy(e) == IF st.phase # "run" \/ e.cid # st.cid \/ e.call # st.call THEN "eval outside a running solve"
               ELSE IF e.idx # st.cnt + 1 THEN "eval numbering"
-              ELSE IF ~st.over /\ ~N!EvalAllowed(st.v, st.n, st.maxit, st.cnt) THEN "more evaluations than maxit*EvalBound"
-              ELSE IF ~st.div /\ ~Repeats(e) THEN "evaluation differs from call 1"
+              ELSE IF ~st.over /\ ~N!EvalAllowed(st.v, st.n, st.maxit, st.cnt) THEN "evaluations > maxit*EvalBound"
+              ELSE IF ~st.div /\ ~Repeats(e) THEN "evaluation differs from reference"
               ELSE "ok"
 AfterEval(e) == [st EXCEPT !.cnt = st.cnt + 1, !.seq = Append(st.seq, e.x),
                            !.over = st.over \/ ~N!EvalAllowed(st.v, st.n, st.maxit, st.cnt),
-                           !.div = st.div \/ (st.phase = "run" /\ ~Repeats(e))]
+                           !.div = st.div \/ (st.phase = "run" /\ e.idx = st.cnt + 1 /\ ~Repeats(e))]
 
 InStep(r, from, to) == \E i \in from..to : i <= Len(st.seq) /\ st.seq[i] = r
 EndWhy(e) ==
     IF st.phase # "run" \/ e.cid # st.cid \/ e.call # st.call THEN "end outside a running solve"
     ELSE IF e.panic THEN "panic"
     ELSE IF e.cnt # st.cnt THEN "event count"
-    ELSE IF ~N!EndAllowed(st.v, st.n, st.maxit, st.cnt, e.ok) THEN "work bound / success without a step"
-    ELSE IF st.maxit = 0 /\ (e.ok \/ st.cnt # 0 \/ e.r # st.g) THEN "limit 0 must give Err(guess) without evaluation"
+    ELSE IF ~N!EndAllowed(st.v, st.n, st.maxit, st.cnt, e.ok) THEN "work bound / success without step"
+    ELSE IF st.maxit = 0 /\ (e.ok \/ st.cnt # 0 \/ e.r # st.g) THEN "limit 0: Err(guess), no evaluation"
     ELSE IF e.pa # st.pb THEN "parameters() changed by solve"
     ELSE IF e.ok /\ e.basin /\ e.du > 1 THEN "Ok far from the root"
     ELSE IF e.expect = "ok" /\ ~e.ok THEN "failure inside the convergence basin"
-    ELSE IF e.expect = "err" /\ e.ok THEN "success although the criterion cannot be met"
-    ELSE IF e.call = 2 /\ (e.ok # st.ok1 \/ e.r # st.r1 \/ st.cnt # st.cnt1) THEN "second call differs"
-    ELSE IF e.call = 3 /\ st.ok1 /\ (~e.ok \/ e.r # st.r1 \/ st.cnt # st.cnt1) THEN "larger limit changes a success"
-    ELSE IF e.call = 3 /\ ~st.ok1 /\ ~(st.cnt > st.cnt1 /\ InStep(st.r1, st.cnt1 + 1, st.cnt)) THEN "Err does not carry the last iterate"
+    ELSE IF e.expect = "err" /\ e.ok THEN "success but criterion cannot be met"
+    ELSE IF st.role = "rep" /\ (e.ok # st.ok1 \/ e.r # st.r1 \/ st.cnt # st.cnt1) THEN "differs from the reference solve"
+    ELSE IF st.role = "ext" /\ st.ok1 /\ (~e.ok \/ e.r # st.r1 \/ st.cnt # st.cnt1) THEN "larger limit changes a success"
+    ELSE IF st.role = "ext" /\ ~st.ok1 /\ ~(st.cnt > st.cnt1 /\ InStep(st.r1, st.cnt1 + 1, st.cnt)) THEN "Err does not carry the last iterate"
+    ELSE IF st.role = "unit" /\ (e.ok \/ st.cnt < 1) THEN "limit-1 run must fail after >= 1 call"
+    ELSE IF st.role = "lad" /\ (e.ok \/ st.cnt # st.maxit * st.c1) THEN "calls(limit m) # m * calls(limit 1)"
+    ELSE IF st.role = "lad" /\ st.maxit > st.m1 /\ ~InStep(st.r1, st.cnt1 + 1, st.cnt1 + st.c1) THEN "Err does not carry the last iterate"
     ELSE "ok"
-AfterEnd(e) == [st EXCEPT !.phase = "done", !.cid = e.cid, !.call = e.call,
-                          !.seq1 = IF e.call = 1 THEN st.seq ELSE st.seq1, !.cnt1 = IF e.call = 1 THEN st.cnt ELSE st.cnt1,
-                          !.ok1 = IF e.call = 1 THEN e.ok ELSE st.ok1, !.r1 = IF e.call = 1 THEN e.r ELSE st.r1]
+\* "ref"/"unit" store the reference run; a "lad" run longer than every earlier one becomes the reference
+AfterEnd(e) == LET store == StartsRef(st.role) \/ (st.role = "lad" /\ st.maxit > st.m1)
+               IN [st EXCEPT !.phase = "done", !.cid = e.cid, !.call = e.call,
+                             !.seq1 = IF store THEN st.seq ELSE st.seq1, !.cnt1 = IF store THEN st.cnt ELSE st.cnt1,
+                             !.ok1 = IF store THEN e.ok ELSE st.ok1, !.r1 = IF store THEN e.r ELSE st.r1,
+                             !.m1 = IF store THEN st.maxit ELSE st.m1,
+                             !.c1 = IF st.role = "unit" THEN st.cnt ELSE st.c1]
 
 Init == l = 1 /\ st = Idle /\ TLCSet(1, 0)
 Step == /\ l <= NRec
         /\ LET e == Rec[l]
-           IN CASE e.op = "begin" -> /\ (IF BeginOK(e) THEN TRUE ELSE Mismatch(l, e, "begin: configuration not as set / not as in call 1"))
+           IN CASE e.op = "begin" -> /\ (IF BeginOK(e) THEN TRUE ELSE Mismatch(l, e, "begin: configuration not as set"))
                                      /\ st' = AfterBegin(e)
                 [] e.op = "eval" -> /\ (IF EvalWhy(e) = "ok" THEN TRUE ELSE Mismatch(l, e, EvalWhy(e)))
                                     /\ st' = AfterEval(e)
